@@ -127,10 +127,11 @@ const (
 	wUpper                 // right with ASCII letters upper-cased
 	wJSONEquivalent        // JSON marshal helper only: the same JSON value, other key order, spacing and number form
 	wInvalidByte           // another invalid UTF-8 byte in the place of one (0xff -> 0xfe, 0xe9 -> 0xe8): equal as runes, different as bytes
+	wDynType               // a value behind an interface-typed field has another dynamic type (float64(1) for int(1)); for types without such a field: another payload
 	numWrong
 )
 
-var wrongNames = [...]string{"+~", "+newline", "-last byte", "space+", "upper-cased", "json-equivalent", "other-invalid-utf8-byte"}
+var wrongNames = [...]string{"+~", "+newline", "-last byte", "space+", "upper-cased", "json-equivalent", "other-invalid-utf8-byte", "other-dynamic-type-behind-interface"}
 
 func wrongOf(s string, kind int) string {
 	switch kind {
@@ -149,6 +150,8 @@ func wrongOf(s string, kind int) string {
 			return u
 		}
 		return s + "~"
+	case wDynType:
+		return s + dynMark
 	case wInvalidByte:
 		b := []byte(s)
 		changed := false
@@ -366,6 +369,64 @@ func (p *Q) UnmarshalBinary(b []byte) error {
 }
 func (p *Q) UnmarshalJSON(b []byte) error {
 	return doUnmarshal(b, func(c int, s string) { *p = Q{c, s, true} })
+}
+
+// dynMark at the end of a payload tells Doc's decoder to store the right payload but a float64
+// where the listed value has an int.
+const dynMark = "#dyn"
+
+// Doc is a value type with an interface-typed field holding a map (what a JSON document decodes
+// to): comparable as far as the type system knows, while == on two of them panics at run time.
+type Doc struct {
+	Case    int
+	Payload string
+	Body    interface{}
+}
+
+func docBody(c int, asFloat bool) interface{} {
+	if asFloat {
+		return map[string]interface{}{"n": float64(c), "tags": []interface{}{"a"}}
+	}
+	return map[string]interface{}{"n": c, "tags": []interface{}{"a"}}
+}
+
+func (v Doc) MarshalText() ([]byte, error)   { return doMarshal(v.Case) }
+func (v Doc) MarshalBinary() ([]byte, error) { return doMarshal(v.Case) }
+func (v Doc) MarshalJSON() ([]byte, error)   { return doMarshal(v.Case) }
+func (v *Doc) set(c int, p string) {
+	dyn := strings.HasSuffix(p, dynMark)
+	v.Case, v.Payload, v.Body = c, strings.TrimSuffix(p, dynMark), docBody(c, dyn)
+}
+func (v *Doc) UnmarshalText(b []byte) error   { return doUnmarshal(b, v.set) }
+func (v *Doc) UnmarshalBinary(b []byte) error { return doUnmarshal(b, v.set) }
+func (v *Doc) UnmarshalJSON(b []byte) error   { return doUnmarshal(b, v.set) }
+
+// L is a pointer-receiver type whose String method memoises its result in the value: formatting
+// an L changes it, so a helper that formats a value it has not been asked to report on hands
+// the comparison something the decoder did not produce.
+type L struct {
+	Case     int
+	Payload  string
+	rendered string
+}
+
+func (l *L) String() string {
+	if l.rendered == "" {
+		l.rendered = "<" + l.Payload + ">"
+	}
+	return l.rendered
+}
+func (l *L) MarshalText() ([]byte, error)   { return doMarshal(l.Case) }
+func (l *L) MarshalBinary() ([]byte, error) { return doMarshal(l.Case) }
+func (l *L) MarshalJSON() ([]byte, error)   { return doMarshal(l.Case) }
+func (l *L) UnmarshalText(b []byte) error {
+	return doUnmarshal(b, func(c int, s string) { *l = L{Case: c, Payload: s} })
+}
+func (l *L) UnmarshalBinary(b []byte) error {
+	return doUnmarshal(b, func(c int, s string) { *l = L{Case: c, Payload: s} })
+}
+func (l *L) UnmarshalJSON(b []byte) error {
+	return doUnmarshal(b, func(c int, s string) { *l = L{Case: c, Payload: s} })
 }
 
 // OnlyM implements only the marshal side, OnlyU only the unmarshal side, None neither.
